@@ -7,7 +7,7 @@ package c01
 //     sheet or a missing one, reached from a <style> or a <link>;
 //   - the skeletons after nGen1 with their context menus: one flex line in shrink mode, multi-layer
 //     backgrounds with list-valued longhands of different lengths, grid items placed on named lines,
-//     a running element with pseudo-elements (element() reference graphs), preserved tabs.
+//     a running element with pseudo-elements (element() of itself, of another running element), preserved tabs.
 //
 // A second-generation skeleton is enumerated at levels 0 and 1 with the whole menu (global + context) on
 // the default configuration (thorough: on all configurations), with its context menu on a few more
